@@ -60,7 +60,7 @@ CHECKS = {
    "Three fixed configurations x every history of length <=2 (quick) / <=3 (thorough) over 12 steps, plus 120/3000 random configurations (1-3 overlapping absolute/relative patterns, optional ignore regex) with random length-10/15 histories over a 2-directory tree; after each step + pattern poll a unique probe line is appended to every file of the tree: probes of files in the reference matcher's expected set must be delivered exactly once, all others never, and log_count must equal the expected set's size.",
    "Reference matcher is path/filepath.Match over model paths + ignore regex on the base name; relative patterns are exercised by chdir-ing the test process into the tree.", "§4 C18"),
  "C19": ("exploration", "VM line-hook event log + termination watchdog + reference interpreter on the observed interleaving (under -race)",
-   "120/4000 one-shot mtail.Server runs over a program directory of 1-3 generated programs (some erroring at runtime) and 1-3 log files with random contents (empty files, final unterminated line), GOMAXPROCS 1/2/4/16 and PRNG jitter at the line hook: Run must return; per program and file the hook log must equal the file's lines in order, each once; the final exported store must equal the reference interpreter run on the interleaving that program actually observed.",
+   "120/1500 one-shot mtail.Server runs over a program directory of 1-3 generated programs (some erroring at runtime) and 1-3 log files with random contents (empty files, final unterminated line), GOMAXPROCS 1/2/4/16 and PRNG jitter at the line hook: Run must return; per program and file the hook log must equal the file's lines in order, each once; the final exported store must equal the reference interpreter run on the interleaving that program actually observed.",
    "60s termination watchdog with goroutine dump as witness; runs needing unspecified reference behaviour are abandoned and counted.", "§4 C19"),
  "C20": ("exploration", "offline interval-order checker over a hook event log (fan-out, reload phases, per-VM line start/end), under -race",
    "40/1500 runs of a real runtime.Runtime with one program reloaded 3-8 times at PRNG-chosen points while 30-80 numbered lines are pushed back to back; a third of line executions are stretched at the VM line hook and the reload hook yields between stopping the old and starting the new version, producing the window the quantifier names (measured: reloads that found the old version still busy at the next fan-out; floor enforced). The event log must show exactly one line_start per line and no line starting before its predecessor ended; the gauge must end at the last sequence number and the counter at N.",
@@ -112,7 +112,7 @@ EXTRA = {
  "C14": "13 versions now (also: kind changed on a later declaration, kind clash between two declarations of the program itself).",
  "C15": "Plus 6k/300k generation runs: reader A goes through 2-4 generations (Finish after each, then reused, as the file streams do at truncation) while a second reader created after A's first Finish interleaves its reads.",
  "C16": "Three pre-existing-content modes (none / unterminated / terminated and not read from the start).",
- "C17": "Plus 200/6000 special schedules: cancellation while a single small write (many lines + tail) is still being handed to a slow consumer (everything read must come out); one unixgram sender building a newline-free backlog up to the read-buffer size followed by a large datagram; connections arriving in a storm while the stream is cancelled.",
+ "C17": "Plus 200/2000 special schedules: cancellation while a single small write (many lines + tail) is still being handed to a slow consumer (everything read must come out); one unixgram sender building a newline-free backlog up to the read-buffer size followed by a large datagram; connections arriving in a storm while the stream is cancelled.",
  "C18": "Steps also include a directory replaced by a file of the same name (and back) within one step.",
  "C19": "Every 8th run has a file larger than the read buffer with an LF/CRLF line end placed on the buffer boundary and, half of the time, a line longer than two buffers; two thirds of the runs configure an HTTP listener (unix socket / tcp) as the binary does; the last run(s) are stalled at the hook to last 6.5 s (thorough also 35 s).",
  "C20": "The last run(s) hold one line for 1.6 s (thorough also 6 s and 31 s) with a reload requested meanwhile; every run is guarded by the stall oracle.",
